@@ -64,7 +64,7 @@ def max_spec(draw, options=True, width_mult8=True):
     s["mode"] = draw(st.sampled_from(model.MAX_MODES))
     if options and draw(st.integers(0, 9)) == 0:
         # payload of exactly 2^k bytes (k = 8..14)
-        k = draw(st.integers(8, 14))
+        k = draw(st.integers(8, 15))  # 2^15 bytes: the length field of the header reaches 0x8000
         a = draw(st.integers(0, min(k, 6)))
         s["cols"] = 8 * (1 << a)
         if draw(st.booleans()):
